@@ -126,9 +126,9 @@ fn pick_w(rng: &mut Rng, small: bool) -> u64 {
     if small {
         rng.range(1, 8)
     } else {
-        match rng.below(11) {
+        match rng.below(12) {
             // (any width now and then: row arithmetic that is only wrong for a sparse set of widths)
-            10 => rng.range(13, 260),
+            10 | 11 => rng.range(13, 260),
             0..=4 => rng.range(1, 12),
             5 | 6 => 20,
             7 => 40,
